@@ -83,3 +83,32 @@ Fixpoint equal_loop_tr (eq : Z -> Z -> bool) (s1 s2 : list Z) : bool * list (Z *
 Definition equal_func_tr (eq : Z -> Z -> bool) (s1 s2 : list Z) : bool * list (Z * Z) :=
   if negb (Nat.eqb (length s1) (length s2)) then (false, []) else equal_loop_tr eq s1 s2.
 
+(* ---------- element types whose == is not reflexive ----------
+   Equal / Compare / Index / Contains / IsSorted are defined element-wise through the element type's == and <.
+   The runs also use float64 / float32 slices (NaN, +0 / -0, infinities), interfaces holding floats and structs
+   with float fields. Their elements are sent as class codes: values that are == get the same code, codes of an
+   ordered type increase with the native <, and every element that is not == to itself (NaN, a struct or interface
+   holding NaN) gets the code -1. The element relations are then data: *)
+Inductive elsel :=
+| ENative      (* == and < are those of Z (integers, strings as ranks) *)
+| EPartial.    (* code -1 is unequal to everything including itself and incomparable with everything (NaN) *)
+
+Definition nan_code : Z := -1.
+Definition eq_of (e : elsel) (a b : Z) : bool :=
+  match e with ENative => a =? b | EPartial => (a =? b) && negb (a =? nan_code) end.
+Definition lt_of (e : elsel) (a b : Z) : bool :=
+  match e with ENative => a <? b | EPartial => (a <? b) && negb (a =? nan_code) && negb (b =? nan_code) end.
+
+(* Compare's switch { case v1 < v2: -1; case v1 > v2: +1 } for a given < *)
+Definition cmp3_by (lt : Z -> Z -> bool) (v1 v2 : Z) : Z := if lt v1 v2 then -1 else if lt v2 v1 then 1 else 0.
+(* Index / Contains for a given ==  (for i := range s { if v == s[i] { return i } }; return -1) *)
+Fixpoint index_from_by (eq : Z -> Z -> bool) (s : list Z) (v : Z) (i : Z) : Z :=
+  match s with [] => -1 | x :: t => if eq v x then i else index_from_by eq t v (i + 1) end.
+Definition index_by (eq : Z -> Z -> bool) (s : list Z) (v : Z) : Z := index_from_by eq s v 0.
+Definition contains_by (eq : Z -> Z -> bool) (s : list Z) (v : Z) : bool := index_by eq s v >=? 0.
+
+(* specification of Index: the number of leading elements that are not == v, or -1 when that is all of them *)
+Definition spec_index (eq : Z -> Z -> bool) (s : list Z) (v : Z) : Z :=
+  let k := count_while (fun x => negb (eq v x)) s in
+  if k <? Z.of_nat (length s) then k else -1.
+
